@@ -83,7 +83,8 @@ def make_scenario(seed, idx, tool):
     comp = computer_cfg(rng, rate, allow_none=(tool == "torch"))
     odd = idx % 6 == 5
     one = idx % 6 == 1  # focus on the utterance with exactly one frame: an STFT pipeline with post-processors, nothing excluded by duration
-    while (odd or one) and (comp is None or comp["name"] != "stft"):
+    long_dither = tool == "kaldi" and idx % 12 == 0 and idx > 0  # every twelfth kaldi scenario: dither, an STFT computer and one very long recording
+    while (odd or one or long_dither) and (comp is None or comp["name"] != "stft"):
         comp = computer_cfg(rng, rate, allow_none=False)
     if odd:
         # a complex bank reaching Nyquist with an unpadded, odd DFT size (mirrored-bin walk of the torch port)
@@ -96,6 +97,8 @@ def make_scenario(seed, idx, tool):
     kind = str(rng.choice(["pipeline", "pipeline", "pipeline", "dither", "order"]))
     if odd or one:
         kind = "pipeline"
+    if long_dither:
+        kind = "dither"
     pre, post = [], []
     if kind == "pipeline":
         if rng.random() < 0.7:
@@ -189,7 +192,7 @@ def make_scenario(seed, idx, tool):
         if idx % 2 == 1:
             # a file name with a run of blanks and a tab in it: the map's format is "<id> <path>", the path being the rest of the line
             utts[(a + 1) % len(utts)]["spaced"] = True
-    if tool == "kaldi" and kind == "dither" and idx % 2 == 0 and comp["name"] == "stft":
+    if tool == "kaldi" and kind == "dither" and (long_dither or idx % 2 == 0) and comp["name"] == "stft":
         # one recording of more than 2^20 samples (a minute or two of speech) among the dithered ones: as reproducible under --seed as the rest
         k = next(j for j, u in enumerate(utts) if not u.get("excluded") and j not in (i_one, i_short))
         utts[k]["n"] = 2 ** 20 + 3 + idx
